@@ -7,6 +7,14 @@ CLAIMS = {
    text="Proof: every operation of the channel state machine (machine.go) is verified, for all pre-states satisfying the machine's object invariant and all arguments, against a contract taken from the property statement: success <=> documented phase/signature/final-flag precondition, success => documented target phase and effect, failure => phase, staged and current transaction (including signature list contents) unchanged, own signatures only in signing phases over the staged state. The phase tables are proved from the package initialiser and shown read-only; arbitrary call sequences follow by induction over the invariant.",
    note="Trusted: go/ssa, govc's instruction model, SMT solvers, library specs (pkg/errors, logging), channel.Sign/Verify as pure functions of (address, state, signature); assumes states/signature slices handed to the machine are not mutated afterwards and candidate states are non-nil. Sequential semantics.",
    design="4/C09"),
+ "C15": dict(
+   text="Proof of the comparison half (E1): every comparison function of package channel (SubAlloc.Equal/BalancesEqual/indexMapEqual, SubAllocsAssertEqual/Equal, Balances.AssertEqual/Equal, AssertAssetsEqual, AssertBackendsEqual, Allocation.Equal) returns 'equal' if and only if the field-wise specification over all transmitted fields holds (ids, every balance value, every asset, every backend id, every locked id/amount/index-map entry, all dimensions), for all inputs, with loop invariants. This is what exposed (and now guards the repair of) SubAlloc.Equal ignoring the index map.",
+   note="Not yet under contract in this round: State.Equal, the encoder side (every Encode emits exactly the compared fields) and the sim backend's Sign/Verify feeding exactly the state encoding; cryptographic strength is assumed. Asset.Equal is an assumed pure equivalence (interface contract); balances/assets non-nil.",
+   design="4/C15"),
+ "C19": dict(
+   text="Proof: CloneBals, CloneIndexMap, Balances.Clone, NewSubAlloc, Allocation.Clone, State.Clone, Transaction.Clone, wallet.CloneSigs, wallet.CloneAddressesMap, channel.CloneAddresses, Params.Clone, machine.Clone, StateMachine.Clone each return a value with an equal view in which every mutable location reachable from the clone (slice backing arrays, big integers, maps, signature byte arrays, nonce, interface payloads) is allocated during the call; frame obligations prove the original heap untouched. Fresh objects plus untouched old heap imply no later write through one side is visible through the other. Loop invariants carry the per-element facts for all lengths.",
+   note="Assumed: Data.Clone and wallet.CloneAddress (marshal/unmarshal via backend registry) satisfy their interface contract (fresh, equal encoding); inputs non-nil where the code dereferences them. App, Asset values, accounts shared as documented. machine.prevTXs (debug history) only proved fresh, ActionMachine.Clone and persistence.CloneSource/FromSource not yet under contract.",
+   design="4/C19"),
 }
 
 NA = {
